@@ -32,6 +32,7 @@ class MemoryPool;
 ///
 class Erat
 {
+  PRIMESIEVE_VERIF_FRIEND
 public:
   uint64_t getStop() const;
 
